@@ -364,6 +364,131 @@ def n_instr(prog):
     return sum(1 + (n_instr(i[1]) + n_instr(i[2]) if i[0] in BRANCHY else n_instr(i[2]) if i[0] == 'DIP' else 0) for i in prog)
 
 
+
+# ---- second stream: wider instruction set, twins only (no model): collections, lambdas, MAP/ITER bodies ----------
+def proj_code(rng, sk, want_leaf=True):
+    """random valid projection code for a value of skeleton sk (CAR/CDR/GET n), returns (code, resulting skeleton)"""
+    code = []
+    cur = sk
+    for _ in range(rng.randrange(0, 4)):
+        if cur[0] != 'pair':
+            break
+        leaves = []
+        c = cur
+        while c[0] == 'pair':
+            leaves.append(c[1])
+            c = c[2]
+        leaves.append(c)
+        r = rng.random()
+        if r < 0.35:
+            code.append('CAR')
+            cur = cur[1]
+        elif r < 0.6:
+            code.append('CDR')
+            cur = cur[2]
+        else:
+            k = rng.randrange(0, len(leaves))
+            if k < len(leaves) - 1:
+                code.append(f'GET {2 * k + 1}')
+                cur = leaves[k]
+            else:
+                code.append(f'GET {2 * k}')
+                cur = leaves[k]
+    return code, cur
+
+
+def comparable_sk(rng, n):
+    first = ('p', rng.choice(['int', 'nat', 'string', 'bytes', 'bool', 'mutez']))
+    if n <= 1:
+        return first
+    return ('pair', first, comparable_sk(rng, n - 1))
+
+
+def wide_program(rng):
+    """(template with {T}/{K}… placeholders filled per twin) -> list of (text pieces); returns a function style -> code"""
+    T = gen_comb(rng, 1, rng.choice([2, 2, 3, 4]))
+    K = comparable_sk(rng, rng.choice([1, 1, 2, 3]))
+    U = gen_leaf(rng, 1)
+    vals = [gen_value(rng, T) for _ in range(3)]
+    keys = []
+    for _ in range(3):
+        k = gen_value(rng, K)
+        if text(k) not in [text(x) for x in keys]:
+            keys.append(k)
+    # sorted keys as pytezos requires for literals: let the implementation sort via repeated UPDATE instead
+    proj, psk = proj_code(rng, T)
+    P = ' ; '.join(proj) if proj else ''
+    body = '{ ' + P + ' }' if P else '{}'
+    cdr_body = '{ CDR' + (' ; ' + P if P else '') + ' }'
+    kind = rng.randrange(0, 14)
+
+    def build(style):
+        ty = lambda sk: text(annotate(rng, sk, style))   # noqa: E731
+        v = [text(x) for x in vals]
+        e = [x[1:-1] if x.startswith('(') else x for x in v]     # as elements of a sequence literal
+        k = [text(x) for x in keys]
+        if kind == 0:
+            return f'PUSH (list {ty(T)}) {{ {e[0]} ; {e[1]} }} ; MAP {body}'
+        if kind == 1:
+            return f'NIL {ty(T)} ; PUSH {ty(T)} {v[0]} ; CONS ; PUSH {ty(T)} {v[1]} ; CONS ; DUP ; PACK'
+        if kind == 2:
+            ups = ' ; '.join(f'PUSH {ty(T)} {v[i % 3]} ; SOME ; PUSH {ty(K)} {k[i]} ; UPDATE' for i in range(len(k)))
+            return f'EMPTY_MAP {ty(K)} {ty(T)} ; {ups} ; MAP {cdr_body}'
+        if kind == 3:
+            ups = ' ; '.join(f'PUSH {ty(T)} {v[i % 3]} ; SOME ; PUSH {ty(K)} {k[i]} ; UPDATE' for i in range(len(k)))
+            return f'EMPTY_MAP {ty(K)} {ty(T)} ; {ups} ; PUSH {ty(K)} {k[0]} ; GET ; IF_NONE {{ UNIT }} {{ {P + " ; " if P else ""}PACK ; DROP ; UNIT }}'
+        if kind == 4:
+            ups = ' ; '.join(f'PUSH bool True ; PUSH {ty(K)} {k[i]} ; UPDATE' for i in range(len(k)))
+            return f'EMPTY_SET {ty(K)} ; {ups} ; DUP ; PUSH {ty(K)} {k[-1]} ; MEM ; SWAP ; PACK'
+        if kind == 5:
+            return f'PUSH (option {ty(T)}) (Some {v[0]}) ; IF_NONE {{ UNIT }} {body}'
+        if kind == 6:
+            return f'PUSH (or {ty(T)} {ty(U)}) (Left {v[0]}) ; IF_LEFT {body} {{ DROP ; UNIT }}'
+        if kind == 7:
+            return f'LAMBDA {ty(T)} {ty(psk)} {body} ; PUSH {ty(T)} {v[0]} ; EXEC'
+        if kind == 8:
+            return f'PUSH {ty(T)} {v[0]} ; PACK ; UNPACK {ty(T)} ; IF_NONE {{ UNIT }} {body}'
+        if kind == 9:
+            return f'PUSH (list {ty(T)}) {{ {e[0]} ; {e[1]} ; {e[2]} }} ; ITER {{ {P + " ; " if P else ""}DROP }} ; UNIT'
+        if kind == 10:
+            return f'PUSH {ty(T)} {v[0]} ; LEFT {ty(U)} ; PACK ; PUSH {ty(T)} {v[1]} ; SOME ; PACK ; PAIR'
+        if kind == 11:
+            ups = ' ; '.join(f'PUSH {ty(T)} {v[i % 3]} ; SOME ; PUSH {ty(K)} {k[i]} ; UPDATE' for i in range(len(k)))
+            return f'EMPTY_MAP {ty(K)} {ty(T)} ; {ups} ; ITER {{ CDR ; {P + " ; " if P else ""}DROP }} ; UNIT'
+        if kind == 12:
+            return f'PUSH (list (option {ty(T)})) {{ Some {v[0]} ; None }} ; MAP {{ IF_NONE {{ PUSH {ty(psk)} {text(gen_value(random_for(psk), psk))} }} {body} }} ; PACK'
+        return f'PUSH {ty(T)} {v[0]} ; PUSH {ty(T)} {v[1]} ; PAIR ; DUP ; CAR ; SWAP ; CDR ; COMPARE'
+    return kind, build
+
+
+class random_for:
+    """deterministic tiny rng so that the same default value is rendered in every twin"""
+    def __init__(self, sk):
+        import random as _r
+        self._r = _r.Random(repr(sk))
+
+    def __getattr__(self, name):
+        return getattr(self._r, name)
+
+
+LAST_ERROR = ['']
+
+
+def observe_any(code):
+    from pytezos.michelson.repl import Interpreter
+    itp = Interpreter()
+    ok, res = lib.call(itp.execute, code)
+    if not ok or res.error is not None:
+        LAST_ERROR[0] = ' '.join(map(str, getattr(res.error if ok else res, 'args', ())))
+        return ('fail',)
+    out = []
+    for x in itp.stack.items:
+        okp, packed = lib.call(lambda: x.pack().hex())
+        okm, mich = lib.call(lambda: lib.canon_micheline(x.to_micheline_value(mode='readable')))
+        out.append((mich if okm else 'no-micheline', strip_ty(type(x).as_micheline_expr()), packed if okp else 'not-packable'))
+    return ('ok', out)
+
+
 FIXED = [  # witnesses of defects #10 and #34 (fixed in /repo): replayed on every run
     ('GET 3 on an annotated right comb (defect #10)',
      'PUSH (pair (int %a) (pair %b (int %c) (pair %d (int %e) (int %f)))) (Pair 1 2 3 4) ; GET 3',
@@ -460,6 +585,32 @@ def run(ctx: lib.Ctx) -> None:
                                'repro': f'Interpreter().execute({code!r}) vs Interpreter().execute({twins[2][2]!r})'}, found=True)
                 violations += 1
     ctx.extra['programs'] = nprog
+    # second stream: collections / lambdas / MAP / ITER, twins only
+    nwide = ctx.n(150, 2500)
+    wide_kinds = {}
+    known_hits = 0
+    for _ in range(nwide):
+        kind, build = wide_program(rng)
+        codes = [build(st) for st in ('all', 'some', 'none')]
+        obs3 = [observe_any(c) for c in codes]
+        wide_kinds[kind] = wide_kinds.get(kind, 0) + (obs3[2][0] == 'ok')
+        for st, c, o in zip(('all', 'some', 'none'), codes, obs3):
+            ctx.case(c, nontrivial=True, kind=f'wide{kind}:{st}:{o[0]}', sample=None)
+        for c, o in zip(codes[:2], obs3[:2]):
+            if o != obs3[2] and o == ('fail',) and ' MAP ' in c and 'PUSH (list' in c and ctx.finding('list-map-field-annot'):
+                observe_any(c)
+                if 'list argument type cannot be annotated' in LAST_ERROR[0]:
+                    ctx.known_hit(ctx.finding('list-map-field-annot'))
+                    known_hits += 1
+                    continue
+            if o != obs3[2] and violations < 3:
+                ctx.violation('annotations change the result: the annotated and the stripped program differ',
+                              {'annotated_code': c, 'stripped_code': codes[2], 'annotated_result': o, 'stripped_result': obs3[2],
+                               'repro': f'Interpreter().execute({c!r}) vs Interpreter().execute({codes[2]!r})'}, found=True)
+                violations += 1
+    ctx.extra['wide_programs'] = nwide
+    ctx.extra['known_finding_hits'] = known_hits
+    ctx.extra['wide_templates_ok_counts'] = wide_kinds
     T['interpreter'] = round(time.time() - t0, 1)
     bad = ctx.coq_mismatches('comb', IMPORTS, 'run_prog', 'out_eqb', 'list (cinstr ann)', 'result (list aval)', cases, shard=70)
     mbad = ctx.coq_mismatches('mich', IMPORTS, 'fun v => [to_mich Readable v; to_mich Optimized v; to_mich LegacyOptimized v]',
